@@ -171,6 +171,8 @@ structure St where
   returned : Bool := false
   /-- keys whose task was created in the current build (C02: at most once) -/
   ran : List Key := []
+  /-- keys whose scan started in the current build -/
+  scanned : List Key := []
   /-- ghost: some failed build ended while discovered dependencies were still pending -/
   pendingDropped : Bool := false
 
@@ -237,13 +239,22 @@ def needsOk (s : St) (k : Key) (reason : Nat) (input : Option Key) : Bool :=
       isDone s d && r.builtAt < (s.mem.res d).computedAt
   | _, _ => false
 
+/-- why the engine may start scanning `k` (`demandRule`): it is the requested key, a discovered
+dependency still to be brought up to date, a recorded dependency of a rule that is being scanned, or
+an issued request of a task that is collecting its inputs -/
+def demanded (s : St) (k : Key) : Bool :=
+  s.target == some k
+  || s.pending.any (fun p => p.1 == k)
+  || s.scanned.any (fun a => s.status a == .scanning && (s.mem.res a).deps.any (fun d => d.key == k))
+  || s.ran.any (fun a => s.status a == .running && (s.task a).issued.any (fun q => q.key == k))
+
 /-- One observable event.  `none` = the real engine did something the model does not allow. -/
 def step (P : Program) (s : St) : Event → Option St
   | .buildStart k =>
     if s.target.isNone then
       some { s with status := fun _ => .idle, validSeen := fun _ => none, task := fun _ => {}, pending := [],
                     target := some k, started := false, cancelled := false, cycleSeen := false,
-                    errSeen := false, returned := false, ran := [] }
+                    errSeen := false, returned := false, ran := [], scanned := [] }
     else none
   | .queueCreated =>
     -- build(): the execution queue is created (unless already cancelled), then `++currentEpoch`
@@ -262,9 +273,9 @@ def step (P : Program) (s : St) : Event → Option St
     else none
   | .scanning k =>
     -- scanRule: the rule starts being scanned; single-use dependencies are dropped first
-    if s.started && s.status k == .idle && s.registered k then
+    if s.started && s.status k == .idle && s.registered k && demanded s k then
       let r := s.mem.res k
-      some { s with status := upd s.status k .scanning,
+      some { s with status := upd s.status k .scanning, scanned := k :: s.scanned,
                     mem := s.mem.setRes k { r with deps := r.deps.filter (fun d => !d.singleUse) } }
     else none
   | .valid k v b =>
